@@ -33,7 +33,6 @@ SHOW = {"Z": "zeige die Zahl", "B": "zeige den Buchstaben", "T": "zeige den Text
 ELEM = {"T": "B", "ZL": "Z", "TL": "T"}
 
 PRELUDE = '''Binde "Duden/Ausgabe" ein.
-Binde "Duden/Listen" ein.
 
 Wir nennen die Kombination aus
 	dem Text name mit Standardwert "",
@@ -303,7 +302,10 @@ def r_stmts(ss, vt, ind):
 def render(prog):
     vt = {}
     lines = r_stmts(prog["globals"], vt, 0)
-    out = PRELUDE + "\n".join(lines) + "\n\n"
+    pre = PRELUDE
+    if "'append'" in repr(prog):
+        pre = pre.replace('Binde "Duden/Ausgabe" ein.\n', 'Binde "Duden/Ausgabe" ein.\nBinde "Duden/Listen" ein.\n', 1)
+    out = pre + "\n".join(lines) + "\n\n"
     for f in prog["funs"]:
         ps = f["params"]
         names = [p[0] for p in ps]
@@ -1022,6 +1024,17 @@ def shape_programs(rng):
     prog = dict(globals=[("decl", "TL", "A", lit("TL", ("erstes element", "zweites element")))], funs=[f],
                 main=[("call", None, "element", [("val", V("A")), ("ref", ("el", ("var", "A"), ("int", 1)))]), ("print", V("A"), "direct")])
     out.append((dict(kind="shape", shape="value+Referenz same variable", ty="TL", mutation="element-part"), prog))
+    # (8) a Referenz to a part of a variable while the callee replaces / grows the container
+    f = dict(name="ersetze", params=[("r", "T", True)],
+             body=[("asg", ("var", "A"), ("lit", "TL", ("ganz", "neue", "liste"))), ("asg", ("var", "r"), ("lit", "T", "in das element geschrieben"))], ret=None)
+    prog = dict(globals=[("decl", "TL", "A", lit("TL", ("erstes element", "zweites element")))], funs=[f],
+                main=[("call", None, "ersetze", [("ref", ("el", ("var", "A"), ("int", 2)))]), ("print", V("A"), "direct")])
+    out.append((dict(kind="shape", shape="Referenz to a part, container replaced", ty="TL", mutation="assign"), prog))
+    f = dict(name="wachse", params=[("r", "T", True), ("l", "TL", True)],
+             body=[("asg", ("var", "l"), ("cat", V("l"), ("lit", "TL", ("noch eins", "und noch eins", "und ein drittes")))), ("asg", ("var", "r"), ("lit", "T", "in das element geschrieben"))], ret=None)
+    prog = dict(globals=[("decl", "TL", "A", lit("TL", ("erstes element", "zweites element")))], funs=[f],
+                main=[("call", None, "wachse", [("ref", ("el", ("var", "A"), ("int", 1))), ("ref", ("var", "A"))]), ("print", V("A"), "direct")])
+    out.append((dict(kind="shape", shape="Referenz to a part, container replaced", ty="TL", mutation="compound"), prog))
     return out
 
 
